@@ -389,6 +389,10 @@ impl Installation {
         {
             let mut index_manager = self.index_manager.write().await;
             index_manager.add_entry(&encoding_key, archive_id, archive_offset, size)?;
+            // Persist the index like `DynamicContainer::write` does: without
+            // this the new entry lives only in memory and the object is
+            // unreachable after the installation is reopened.
+            index_manager.save_all()?;
         }
 
         info!(
